@@ -387,7 +387,7 @@ func probe(prober *h.Peer, name string) (owner int, unknown bool) {
 func handoverCase(c *h.Case) {
 	rng := c.Rng
 	pfx := fmt.Sprintf("c%d.", c.Idx)
-	variant := []string{"plain", "delayed-del", "simultaneous", "held-teardown", "held-teardown", "cut-before-ack"}[rng.Intn(6)]
+	variant := []string{"plain", "delayed-del", "simultaneous", "held-teardown", "held-teardown", "cut-before-ack", "dropped-held-teardown"}[rng.Intn(7)]
 	nNames := 1 + rng.Intn(3)
 	withTCP := rng.Intn(2) == 0
 	nSim := 2 + rng.Intn(3)
@@ -502,9 +502,11 @@ func handoverCase(c *h.Case) {
 			return
 		}
 		survivors = []*h.Peer{p}
-	} else if variant == "held-teardown" {
+	} else if variant == "held-teardown" || variant == "dropped-held-teardown" {
 		// park the old session's teardown right after its dispatcher ended: the new login must not be
-		// acknowledged while the old session still holds its resources
+		// acknowledged while the old session still holds its resources. In the "dropped" form the old
+		// connection is lost first (the teardown starts by itself and is parked), then the client comes back
+		// with its run id: the session whose teardown is unfinished is still the predecessor to wait for.
 		hold := h.NewGate("server.worker.afterDispatcherDone", R, 1)
 		defer hold.Release()
 		type res struct {
@@ -512,17 +514,28 @@ func handoverCase(c *h.Case) {
 			err error
 		}
 		ch := make(chan res, 1)
-		go func() { p, err := mk("S2", R); ch <- res{p, err} }()
-		if !hold.WaitArrived(10 * time.Second) {
-			run.Inconclusive("afterDispatcherDone gate not reached")
-			hold.Release()
-			r := <-ch
-			if r.p != nil {
-				r.p.Close()
+		if variant == "dropped-held-teardown" {
+			old.Close()
+			if !hold.WaitArrived(10 * time.Second) {
+				run.Inconclusive("afterDispatcherDone gate not reached after the connection was dropped")
+				return
 			}
-			return
+			time.Sleep(time.Duration(rng.Intn(30)) * time.Millisecond)
+			run.Count("gate_teardown_held_after_drop", 1)
+			go func() { p, err := mk("S2", R); ch <- res{p, err} }()
+		} else {
+			go func() { p, err := mk("S2", R); ch <- res{p, err} }()
+			if !hold.WaitArrived(10 * time.Second) {
+				run.Inconclusive("afterDispatcherDone gate not reached")
+				hold.Release()
+				r := <-ch
+				if r.p != nil {
+					r.p.Close()
+				}
+				return
+			}
+			run.Count("gate_teardown_held", 1)
 		}
-		run.Count("gate_teardown_held", 1)
 		var got *res
 		select {
 		case r := <-ch:
